@@ -105,6 +105,9 @@ Location locate_hunk(const std::vector<Line>& content, const Hunk& hunk, bool ig
     if (hunk.old_file_range.number_of_lines == 0) {
         if (hunk.old_file_range.start_line == 0 && !content.empty())
             return {};
+        // Lines can only be inserted between lines which exist and have not been written out yet.
+        if (offset_guess < min_line || static_cast<size_t>(offset_guess) > content.size())
+            return {};
         return { offset_guess, 0, 0 };
     }
 
